@@ -26,8 +26,8 @@ TOL = 1e-12
 
 
 def bounds(tier):
-    return dict(quick=dict(history_depth=4, grid_divisions='1..4 x 1..4', conversion='degrees<=3 curves, <=2 surfaces/volumes'),
-                thorough=dict(history_depth=6, grid_divisions='1..5 x 1..5', conversion='degrees<=3'))[tier]
+    return dict(quick=dict(history_depth=4, grid_divisions='1..4 x 1..4 + 7 large up to 16x15, 1x128', conversion='degrees<=3 curves, <=2 surfaces/volumes'),
+                thorough=dict(history_depth=6, grid_divisions='1..5 x 1..5 + 10 large up to 30x31', conversion='degrees<=3'))[tier]
 
 
 # ----------------------------------------------------------------------------------------
@@ -171,6 +171,21 @@ def gen_cases(tier, seed):
         for wk in ('coded', 'seeded', 'spike'):
             for order in ('set_read', 'read_set_read', 'set_read_set_read', 'default_read'):
                 cases.append(dict(mode='grid', nu=nu, nv=nv, weights=wk, order=order))
+    # grids beyond the small sizes: one long direction, more than 9 per direction, more than 256 points in total
+    for nu, nv in ((1, 11), (12, 2), (9, 10), (16, 15), (15, 16), (1, 128), (42, 5)) + (() if q else ((20, 20), (2, 85), (30, 31))):
+        for wk in ('coded', 'seeded'):
+            for order in ('set_read', 'read_set_read', 'set_read_set_read', 'default_read'):
+                cases.append(dict(mode='grid', nu=nu, nv=nv, weights=wk, order=order))
+    # helpers and conversions on shapes with degree up to 6, 12 control points per direction, more than 256 control points
+    from .. import util_knots as K
+    for sizes in ([258], [17, 18], [9, 5, 6], [3, 4, 33], [12], [11, 3]):
+        for wk in ('coded', 'seeded'):
+            cases.append(dict(mode='helpers', sizes=sizes, dim=3, weights=wk, net='coded'))
+    for d in K.tall_curve_shapes(tier)[::2][::3] + K.tall_surface_shapes(tier)[::5] + [h for h in K.huge_shapes(tier) if not h['rational']]:
+        cases.append(dict(mode='convert', shape=dict(d, rational=False, weights='ones')))
+    for d in K.tall_curve_shapes(tier)[1::2][::3] + K.tall_surface_shapes(tier)[1::4] + [h for h in K.huge_shapes(tier) if h['rational']]:
+        cases.append(dict(mode='scale_weights', shape=dict(d, rational=True, weights='coded')))
+        cases.append(dict(mode='convert_rational', shape=dict(d, rational=True, weights='le1')))
     # conversion + weight scaling on shapes
     degs1 = [1, 2, 3]
     for p in degs1:
